@@ -10,9 +10,10 @@ ob("NC_findattr_b", "C10", entry="h_NC_findattr", enforce="H4_NC_findattr", mode
 ob("NC_aput", "C10", entry="h_NC_aput", enforce="NC_aput", replace=["H4_NC_findattr"], defines=["C10_STRLEN_STUB"], cex_unwind=6, **AT)
 
 prop("C10",
-     residual="whole-API histories: SDsetattr/SDIputattr and the predefined attributes built on it (mfsd.c), persistence "
-              "(hdf_write_attr/hdf_read_attrs, cdf.c), dimension scales, GR/Vdata/Vgroup attributes (mfgr.c, vattr.c), name/index/ref "
-              "bijections, reopen; only NC_findattr (bounded) and NC_aput (list put/replace/append logic over stubbed allocation) are decided",
+     residual="decided per call: NC_findattr (bounded), NC_aput, SDIputattr/SDsetattr/SDattrinfo/SDreadattr over stubbed allocation (c10_attr_ext.py), "
+              "one attribute through hdf_write_attr then hdf_read_attrs over a ghost Vdata header (bounded), GRsetattr/GRattrinfo in memory (bounded).  "
+              "NOT decided: whole-API histories, the predefined attributes built on SDsetattr, dimension scales, Vdata/Vgroup attributes (vattr.c), "
+              "name/index/ref bijections, the real V layer under the persistence path, reopen",
      assumptions=["A-XDR: the XDR layer is not verified (xdr_cdf stubbed)",
                   "A-NC-ALLOC: NC_new_string/NC_new_array/NC_re_array/NC_incr_array/NC_free_* are stubs that log their arguments; "
                   "NC_incr_array appends without reallocating; strlen of the attribute name is a ghost length in the NC_aput obligation"])
